@@ -527,7 +527,9 @@ func (w *World) applyMutation(p *TxPlan, tx *rtypes.Trx, mu *Mutation, act *Acto
 	one := uint256.NewInt(1)
 	switch mu.Field {
 	case "amount":
-		if mu.How == "w64" || mu.How == "w128" {
+		if mu.How == "shl8" && tx.Amount.BitLen() <= 200 && !tx.Amount.IsZero() {
+			tx.Amount = new(uint256.Int).Lsh(tx.Amount, 8) // the same digits, one byte further up
+		} else if mu.How == "w64" || mu.How == "w128" {
 			sh := uint(64)
 			if mu.How == "w128" {
 				sh = 128
@@ -667,7 +669,13 @@ func (w *World) applyMutation(p *TxPlan, tx *rtypes.Trx, mu *Mutation, act *Acto
 				pl.Choice ^= 1
 			}
 		case *rtypes.TrxPayloadContract:
-			pl.Data = append(append([]byte(nil), pl.Data...), 0)
+			if mu.How == "tail" && len(pl.Data) > 0 {
+				d := append([]byte(nil), pl.Data...)
+				d[len(d)-1] ^= 0x01 // same length, last byte altered
+				pl.Data = d
+			} else {
+				pl.Data = append(append([]byte(nil), pl.Data...), 0)
+			}
 		case *rtypes.TrxPayloadSetDoc:
 			if pl.Name != pl.URL && (pl.Name == "" || pl.URL == "" || mu.How == "opt") {
 				pl.Name, pl.URL = pl.URL, pl.Name // the same two strings in the other fields
